@@ -95,7 +95,30 @@ def run_cells(ctx, cells):
         ctx.sample({"cell": {"list": l, "length": L, "sep": wlgen.sep_json(sep), "cap": cap}, "tuples": len(res), "distinct_passwords": len(seen)}, limit=10)
 
 
+def reference_check(ctx):
+    """every wordlist password of the run against an independent restatement of the documented generation on the same tape:
+    each word index, capitalised position and separator is a fresh draw, in the documented order"""
+    for c, a, b in getattr(ctx, "wl_results", []):
+        if a is None or isinstance(c["list"], str):
+            continue
+        order, titles, rest = wlgen.parse_pre(a)
+        d = chargen.parse_password(rest)
+        if d is None or d["outcome"] != "ok" or not order or order == "0":
+            continue
+        words = [core.unhx(x) for x in order.split(",")[1:]]
+        want = wlgen.py_wl_generate(words, title_map(titles), c["length"], c["sep"], c["cap"], c["budget"], c["words"])
+        if want is None:
+            ctx.count("reference_undecided")
+            continue
+        if d["tokens"] != want:
+            ctx.violations.append({"case": c["meta"], "line": wlgen.wlgen_line(c["list"], c["length"], c["sep"], c["cap"], c["budget"], c["words"]), "observed": a[:400],
+                                   "finding_key": "C04-reference", "what": "the password is not the one the documented draws select on this tape (each word, capitalised position and separator a fresh draw): expected %r" % (want[:8],)})
+
+
 def oracle(ctx, deep):
+    reference_check(ctx)
+    if ctx.violations:
+        return
     ctx.searched = "complete product cells of choice tuples on the real WLRecipe.Generate for %d small (list, Length, separator, scheme) combinations" % len(CELLS)
     run_cells(ctx, CELLS if (deep or ctx.tier == "thorough") else CELLS[:8])
 
